@@ -298,6 +298,13 @@ fn run_one(ctx: &mut Ctx, schema: &Valid<Schema>, schema_enc: &str, src: &str, d
     ctx.case("c33.build", &[format!("={schema_enc}"), format!("={docenc}"), format!("={}", frags.join("^")), format!("={cfg_s}"), format!("={}", script.join(","))], &json_text(&data));
     ctx.stat("responses");
     ctx.stat_n("draws", rng.log.len() as u64);
+    check_data(ctx, schema, doc, op, &data, &input);
+}
+
+/// the two oracles on a generated response (whatever randomness source produced it)
+fn check_data(ctx: &mut Ctx, schema: &Valid<Schema>, doc: &Valid<ExecutableDocument>, op: &apollo_compiler::executable::Operation, data: &Value, input: &str) {
+    let data = data.clone();
+    let input = input.to_string();
     // oracle 1: shape
     let shape = Shape { schema, doc };
     let sels: Vec<&Selection> = op.selection_set.selections.iter().collect();
@@ -329,6 +336,57 @@ fn run_one(ctx: &mut Ctx, schema: &Valid<Schema>, schema_enc: &str, src: &str, d
     }
 }
 
+/// The same builder driven by the real `arbitrary::Unstructured` provider (random.rs) over a byte buffer: the
+/// draws cannot be scripted, so this is oracle-only (shape + replay), for buffers from empty to long.
+fn run_unstructured(ctx: &mut Ctx, schema: &Valid<Schema>, src: &str, doc: &Valid<ExecutableDocument>, opname: Option<&str>, cfg: (usize, usize, Option<(u32, u32)>), bytes: &[u8]) {
+    let Ok(op) = doc.operations.get(opname) else { return };
+    let (minl, maxl, nr) = cfg;
+    let built = catch(|| {
+        let mut u = arbitrary::Unstructured::new(bytes);
+        let mut b = ResponseBuilder::new(&mut u, doc, schema).with_min_list_size(minl).with_max_list_size(maxl).with_operation_name(opname);
+        if let Some((n, d)) = nr { b = b.with_null_ratio(n, d); }
+        b.build_data()
+    });
+    let input = format!("provider=Unstructured bytes={bytes:?} op={opname:?} cfg={cfg:?} src={src}");
+    ctx.stat("unstructured_provider");
+    ctx.stat(&format!("unstructured_bytes_{}", match bytes.len() { 0 => "0", 1..=8 => "1-8", 9..=64 => "9-64", _ => "65+" }));
+    match built {
+        Ok(Ok(v)) => check_data(ctx, schema, doc, op, &v, &input),
+        Ok(Err(e)) => { ctx.stat("build_error"); ctx.fail("build-error", &input, &format!("{e}")); }
+        Err(m) => ctx.fail("build-panic", &input, &m),
+    }
+}
+
+/// every wrapping of `name` with at most three list layers (2 + 4 + 8 + 16 = 30)
+fn all_wrappings(name: &str) -> Vec<String> {
+    let mut out = vec![];
+    for layers in 0..4usize {
+        for bits in 0..(1u32 << (layers + 1)) {
+            let mut t = if bits & 1 == 0 { name.to_string() } else { format!("{name}!") };
+            for k in 1..=layers { t = if bits >> k & 1 == 0 { format!("[{t}]") } else { format!("[{t}]!") }; }
+            out.push(t);
+        }
+    }
+    out
+}
+
+/// (prefix, base type, sub-selection) of the wrapping schema
+const WRAP_KINDS: &[(&str, &str, &str)] = &[
+    ("i", "Int", ""), ("f", "Float", ""), ("s", "String", ""), ("b", "Boolean", ""), ("d", "ID", ""), ("e", "E", ""), ("c", "C", ""),
+    ("o", "O", " { x }"), ("n", "N", " { __typename x ... on P { y } }"), ("u", "U", " { ... on O { x } ... on P { y t: __typename } }"),
+];
+
+/// one root field per wrapping (≤ 3 list layers) of every kind of leaf and composite type; an object that implements
+/// its interface, and a union member, only through an extension
+fn wrapping_schema() -> String {
+    let mut q = String::from("type Query {");
+    for (p, base, _) in WRAP_KINDS { for (k, w) in all_wrappings(base).iter().enumerate() { write!(q, " {p}{k}: {w}").unwrap(); } }
+    q.push_str(" }\n");
+    q.push_str("enum E { A B } scalar C interface N { x: Int } type O implements N { x: Int } type P { x: Int y: String } union U = O\n");
+    q.push_str("extend type P implements N\nextend union U = P\n");
+    q
+}
+
 const FIXED_OPS: &[(usize, &str)] = &[
     (0, "{ a b c d e f g h i j k }"), (0, "{ c d oss { c } os { os { k } } }"), (0, "{ o { a } o { k } x_o: o { e } }"), (0, "{ __typename t: __typename o { __typename } }"),
     (1, "{ n { id __typename } ns { id ... on P { name } ... on Res { url } } }"), (1, "{ u { __typename ... on P { name } ... on Img { w } } us { ... on Lone { x } ...F } } fragment F on Node { id }"),
@@ -337,12 +395,35 @@ const FIXED_OPS: &[(usize, &str)] = &[
 ];
 
 pub fn run(ctx: &mut Ctx) {
-    let cfgs: [(usize, usize, Option<(u32, u32)>); 6] = [(0, 5, None), (1, 3, None), (2, 2, Some((1, 2))), (0, 0, None), (0, 3, Some((1, 1))), (1, 2, Some((1, 3)))];
-    let schemas: Vec<Valid<Schema>> = SCHEMAS.iter().map(|s| Schema::parse_and_validate(*s, "s.graphql").expect("fixed schema validates")).collect();
+    let cfgs: [(usize, usize, Option<(u32, u32)>); 9] = [(0, 5, None), (1, 3, None), (2, 2, Some((1, 2))), (0, 0, None), (0, 3, Some((1, 1))), (1, 2, Some((1, 3))),
+        // audit G5: never-null ratio, a fixed size above one, a bound above the default
+        (0, 2, Some((0, 1))), (3, 3, None), (0, 7, Some((2, 3)))];
+    let mut schema_texts: Vec<String> = SCHEMAS.iter().map(|s| s.to_string()).collect();
+    let wrap_si = schema_texts.len();
+    schema_texts.push(wrapping_schema());
+    let schemas: Vec<Valid<Schema>> = schema_texts.iter().map(|s| Schema::parse_and_validate(s.as_str(), "s.graphql").expect("fixed schema validates")).collect();
     let encs: Vec<String> = schemas.iter().map(|s| enc_schema(s)).collect();
     for (si, src) in FIXED_OPS {
         let doc = ExecutableDocument::parse_and_validate(&schemas[*si], *src, "q.graphql").expect("fixed operation validates");
         for (ci, cfg) in cfgs.iter().enumerate() { for seed in 0..4u64 { run_one(ctx, &schemas[*si], &encs[*si], src, &doc, None, *cfg, seed * 7 + ci as u64 + 1); } }
+    }
+    // ── wrapping family (audit G5): every wrapping up to three list layers of every kind of type ──
+    for (p, base, sub) in WRAP_KINDS {
+        let n = all_wrappings(base).len();
+        // all wrappings with ≤ 2 layers in one operation, the three-layer ones in a second (responses stay small)
+        for (lo, hi) in [(0usize, 14usize), (14, n)] {
+            let src = format!("{{ {} }}", (lo..hi).map(|k| format!("{p}{k}{sub}")).collect::<Vec<_>>().join(" "));
+            let doc = ExecutableDocument::parse_and_validate(&schemas[wrap_si], &src, "q.graphql").expect("wrapping operation validates");
+            let use_cfgs: Vec<usize> = if ctx.thorough { (0..cfgs.len()).collect() } else if lo == 0 { vec![1, 2, 5, 6] } else { vec![1, 5] };
+            for ci in use_cfgs {
+                let mut cfg = cfgs[ci];
+                if lo > 0 { cfg.1 = cfg.1.min(3); cfg.0 = cfg.0.min(cfg.1); } // three layers: at most 27 leaves per field
+                for seed in 0..(if ctx.thorough { 4u64 } else { 2 }) {
+                    ctx.stat("family:wrappings");
+                    run_one(ctx, &schemas[wrap_si], &encs[wrap_si], &src, &doc, None, cfg, 1000 + seed * 13 + ci as u64);
+                }
+            }
+        }
     }
     let n = if ctx.thorough { 40_000 } else { 3_000 };
     for i in 0..n {
@@ -351,14 +432,33 @@ pub fn run(ctx: &mut Ctx) {
         let mut r = Rng(ctx.rng.next());
         let root_kind = if si == 2 { *r.pick(&["query", "mutation", "subscription"]) } else { "query" };
         let root_ty = match root_kind { "mutation" => "M", "subscription" => "S", _ => if si == 2 { "Q" } else { "Query" } };
-        let (body, frags) = { let mut g = OpGen { r: &mut r, schema, frags: vec![], nfrag: 0 }; let b = g.selset(root_ty, 0); (b, g.frags) };
+        // one document in four has two named operations sharing the fragment definitions (audit G5)
+        let two_ops = root_kind != "subscription" && r.chance(1, 4);
+        let (body, body2, frags) = {
+            let mut g = OpGen { r: &mut r, schema, frags: vec![], nfrag: 0 };
+            let b = g.selset(root_ty, 0);
+            let b2 = if two_ops { g.selset(root_ty, 0) } else { String::new() };
+            (b, b2, g.frags)
+        };
         // a subscription must have a single root field
         let body = if root_kind == "subscription" { "{ tick { z w { __typename } } }".to_string() } else { body };
-        let src = format!("{root_kind} {body} {}", frags.join(" "));
+        let src = if two_ops { format!("{root_kind} A {body} {root_kind} B {body2} {}", frags.join(" ")) } else { format!("{root_kind} {body} {}", frags.join(" ")) };
         let doc = match ExecutableDocument::parse_and_validate(schema, &src, "q.graphql") { Ok(d) => d, Err(_) => { ctx.stat("generated_invalid"); continue } };
         ctx.stat("generated_valid");
         let cfg = cfgs[i % cfgs.len()];
         let seed = ctx.rng.next();
-        run_one(ctx, schema, &encs[si], &src, &doc, None, cfg, seed);
+        let names: Vec<Option<&str>> = if two_ops { vec![Some("A"), Some("B")] } else { vec![None] };
+        for name in &names {
+            if name.is_some() { ctx.stat("named_operation"); }
+            run_one(ctx, schema, &encs[si], &src, &doc, *name, cfg, seed);
+        }
+        // the same request through the real `Unstructured` provider (oracle-only), one document in five
+        if i % 5 == 0 {
+            let len = *r.pick(&[0usize, 1, 3, 8, 40, 200, 1000]);
+            let bytes: Vec<u8> = (0..len).map(|_| r.below(256) as u8).collect();
+            // `Unstructured::ratio` documents a panic for a zero numerator: that configuration is left to the scripted provider
+            let cfg_u = if matches!(cfg.2, Some((0, _))) { (cfg.0, cfg.1, None) } else { cfg };
+            run_unstructured(ctx, schema, &src, &doc, names[0], cfg_u, &bytes);
+        }
     }
 }
